@@ -134,6 +134,53 @@ func c11Shapes(j c11Job) *jobReport {
 			shapes = append(shapes, shape{fmt.Sprintf("rogue-server-list/extra=%d", extra), frame(b, s1.Key.Priv)})
 		}
 	}
+	// rogue server at the top of the two-byte length range: genuine layout, the list region filled with well-formed
+	// 255-byte-location entries and ending in an entry that is cut short (its header announces more than is left);
+	// every announced length 65100..65535, the cut entry (a) wherever the filling leaves it, (b) with only its
+	// 34-byte header left
+	for L := 65100; L <= 65535; L++ {
+		r := gen
+		r.Servers = nil
+		body := r.body()
+		head, tail := body[:576], body[576:]
+		region := L - 64 - len(head) - len(tail)
+		entry := func(loc int) []byte {
+			e := make([]byte, 104+loc)
+			for i := 0; i < 32; i++ {
+				e[i] = byte(2 + i)
+			}
+			e[33] = byte(loc)
+			for i := 0; i < loc; i++ {
+				e[34+i] = 'a'
+			}
+			return e
+		}
+		for variant := 0; variant < 2; variant++ {
+			var reg []byte
+			left := region
+			for left >= 359+34+104 {
+				reg = append(reg, entry(255)...)
+				left -= 359
+			}
+			if variant == 1 {
+				// one more complete entry sized so that exactly a header is left
+				if loc := left - 34 - 104; loc >= 0 && loc <= 255 {
+					reg = append(reg, entry(loc)...)
+					left = 34
+				}
+			}
+			last := entry(255)
+			if left < len(last) {
+				last = last[:left]
+			}
+			reg = append(reg, last...)
+			for len(reg) < region {
+				reg = append(reg, 'a')
+			}
+			b := append(append(append([]byte(nil), head...), reg[:region]...), tail...)
+			shapes = append(shapes, shape{fmt.Sprintf("rogue-server-list-top/len=%d/variant=%d", L, variant), frame(b, s1.Key.Priv)})
+		}
+	}
 	// empty reply, single refusal byte, one byte of prefix only
 	shapes = append(shapes, shape{"empty", nil}, shape{"refusal-byte", []byte{0}}, shape{"half-prefix", []byte{7}})
 	before := fmt.Sprintf("%+v", w.C.VerifState())
@@ -574,7 +621,7 @@ func init() {
 			}
 		}
 		run.Assumption("delays are not modelled (virtual time); a hung dial is represented by refusal/reset; the Go map iteration order inside the client is not controlled, the harness observes which server was contacted")
-		return runJobCheck(run, "c11", jobs, "(a) reply shapes: every length 0..800, 1000, 4096, 65535 as zeros, as the genuine reply cut with rewritten prefix, as a short read, and as bodies of 0x00/0xFF/own-key bytes correctly timestamped and signed with the contacted server's real key, plus every server-list region length 0..150 signed by the real key, all against the real parser; (b) every sequence of per-attempt outcomes {refused, reset, short read, bad signature, tiny reply, success} for 1..3 configured servers with none/one/all banned and several shuffle answers, through the real sync round, followed by a send-loop tick, a second round and a client restart; distinct = (shape class, verdict) and (round result, attempts) classes")
+		return runJobCheck(run, "c11", jobs, "(a) reply shapes: every length 0..800, 1000, 4096, 65535 as zeros, as the genuine reply cut with rewritten prefix, as a short read, and as bodies of 0x00/0xFF/own-key bytes correctly timestamped and signed with the contacted server's real key, plus every server-list region length 0..150 signed by the real key, plus every announced length 65100..65535 with the list region ending in a cut entry (two placements), all against the real parser; (b) every sequence of per-attempt outcomes {refused, reset, short read, bad signature, tiny reply, success} for 1..3 configured servers with none/one/all banned and several shuffle answers, through the real sync round, followed by a send-loop tick, a second round and a client restart; distinct = (shape class, verdict) and (round result, attempts) classes")
 	}
 }
 
